@@ -159,9 +159,10 @@ func init() {
 		Pkgs:     []string{"rules"},
 		InitPkgs: []string{"filterutil", "rules"},
 		Prepare: func(rc *RunCtx) error {
+			// all patterns of 1..2 tokens; 3-token and longer patterns are seeded samples
 			maxTok, sample := 2, 150
 			if rc.Tier == "thorough" {
-				maxTok, sample = 3, 1000
+				sample = 4000
 			}
 			nr := enumerateMaskRules(maxTok, sample, rc.Seed)
 			rc.Natives["rules"] = nr
@@ -189,7 +190,7 @@ func init() {
 		MustReach: []string{"c03a.translated", "c03b.rule"},
 		Bounds: map[string]string{
 			"quick":    "(a) pattern of 1..3 symbolic bytes over {a . * ^ | / $ \\}; (b) every mask pattern of 1..2 tokens over 22 tokens (all regexp metacharacters, * ^ |, letters of both cases, digit, % - _ space), each also with a leading || and a trailing /*, with and without $match-case, plus 150 seeded longer patterns: for each, ALL URLs of 0..10 printable-ASCII bytes",
-			"thorough": "(a) 1..4 bytes; (b) 1..3 tokens plus 1000 seeded longer patterns, URLs of 0..14 bytes",
+			"thorough": "(a) 1..4 bytes; (b) 1..2 tokens plus 4000 seeded patterns of 3..5 tokens, URLs of 0..14 bytes",
 		},
 		Outside:     []string{"URLs longer than the bound", "non-ASCII bytes", "patterns above the token bound (sampled only)", "regexp.Compile itself: the compiled program is obtained natively and its Pike-VM semantics encoded; the encoding is validated against MatchString on concrete strings each run"},
 		Assumptions: []string{"strings.Replacer modelled for the concrete single-byte table read from the live specialCharReplacer initialiser", "regexp encoding == (*Regexp).MatchString on ASCII (validated on concrete strings each run)", "reference automaton written from the documented mask syntax (rules/regex.go comments and the knowledge-base text)"},
